@@ -111,6 +111,7 @@ class Ctx:
         s.allow_go = o.get("allow_go", False)
         s.progress_every = int(os.environ.get("PROGRESS", "20000"))
         s.fresh_feas = o.get('fresh_feas', True)
+        s.hash_injective = o.get('hash_injective', False)
         s.axioms = []
         s.heap_strict = o.get('heap_strict', True)
         s.last_feas_solver = None
@@ -162,9 +163,13 @@ class Interp:
             fs.set('timeout', c.feas_timeout)
             fs.add(*a)
             r = fs.check()
+            t1 = time.time()
             if r == z3.sat and c.axioms and any(has_uf(x) for x in a):
+                t2 = time.time()
                 fs.add(*c.axioms)
                 r = fs.check()
+                if c.verbose and time.time() - t > 2:
+                    print(f'   (first check {t1 - t:.2f}s, has_uf {t2 - t1:.2f}s, with {len(c.axioms)} axioms {time.time() - t2:.2f}s; uf in: {[i for i, x in enumerate(a) if has_uf(x)]} of {len(a)})', flush=True)
             c.last_feas_solver = fs
         else:
             r = c.solver.check(*a)
@@ -712,7 +717,7 @@ class Interp:
                         pred, blk = blk, b['succs'][1]
                         break
                     if c.verbose and os.environ.get('DBGCOND'):
-                        print(f'   symbolic branch in {short(f["name"])} line {ins.get("line")}', flush=True)
+                        print(f'   symbolic branch in {short(f["name"])} block {blk} cond {str(cnd)[:300]}', flush=True)
                     ft = s.feasible(st.pc, cnd)
                     ff = s.feasible(st.pc, z3.Not(cnd))
                     if ft and not ff:
